@@ -659,7 +659,7 @@ def multi_configs(rtf, pl, seed=0, limit=None):
     """Yield (description, builder) for multi-section documents: 2-3 sections with different columns, small / large nrow, footnote and
     source as table / paragraph / absent, the four page / body border settings set to distinct styles, with and without header lists."""
     rnd = random.Random(seed)
-    combos = list(itertools.product([2, 3], [40, 6, 3], ["none", "fn_table", "src_table", "fn_par", "both_table"], ["nested", "none_lists"]))
+    combos = list(itertools.product([2, 3], [40, 6, 3], ["none", "fn_table", "src_table", "fn_par", "both_table", "title_first", "title_all", "title_last"], ["nested", "none_lists"]))
     rnd.shuffle(combos)
     count = 0
     for nsec, nrow, notes, headers in combos:
@@ -675,11 +675,15 @@ def multi_configs(rtf, pl, seed=0, limit=None):
                 kw["rtf_footnote"] = rtf.RTFFootnote(text="fn text", as_table=False)
             if notes in ("src_table", "both_table"):
                 kw["rtf_source"] = rtf.RTFSource(text="src text", as_table=True)
+            pkw = {}
+            if notes.startswith("title_"):
+                kw["rtf_title"] = rtf.RTFTitle(text="DOCTITLE")
+                pkw["page_title"] = notes.split("_")[1]
             if headers == "nested":
                 kw["rtf_column_header"] = [[rtf.RTFColumnHeader(text=[c.upper() for c in d.columns])] for d in dfs]
             else:
                 kw["rtf_column_header"] = [[None] for _ in dfs]
-            return rtf.RTFDocument(df=dfs, rtf_body=bodies, rtf_page=rtf.RTFPage(nrow=nrow, border_first="triple", border_last="dashed"), **kw)
+            return rtf.RTFDocument(df=dfs, rtf_body=bodies, rtf_page=rtf.RTFPage(nrow=nrow, border_first="triple", border_last="dashed", **pkw), **kw)
         yield desc, build
         count += 1
         if limit and count >= limit:
@@ -724,7 +728,31 @@ def make_check_multi_borders(row_module):
     return check
 
 
-MULTI_FAMILIES = {"wellformed": check_wellformed, "edges": check_edges, "cells": check_multi_cells}
+def check_multi_placement(doc, rtf_text, parsed):
+    """Multi-section documents are outside C06's quantifier (plain / page_by / subline_by / figure documents), so only what holds for every
+    reading of the placement options is judged: the title paragraph appears at most once per page, never after table rows of its page, and
+    with page_title='first' exactly once in the document."""
+    if doc.rtf_title is None or not doc.rtf_title.text:
+        return []
+    pages = [p for p in parsed.pages if p.items]
+    opt = doc.rtf_page.page_title
+    bad = []
+    total = 0
+    for pi, p in enumerate(pages):
+        idx = [k for k, it in enumerate(p.items) if it.kind == "par" and "DOCTITLE" in it.text]
+        total += len(idx)
+        if len(idx) > 1:
+            bad.append(f"page {pi + 1} of {len(pages)}: the title appears {len(idx)} times")
+        if idx:
+            first_row = next((k for k, it in enumerate(p.items) if it.kind == "row"), None)
+            if first_row is not None and idx[0] > first_row:
+                bad.append(f"page {pi + 1}: the title stands after table rows")
+    if opt == "first" and total != 1:
+        bad.append(f"page_title='first': the title appears {total} times in the document")
+    return bad[:4]
+
+
+MULTI_FAMILIES = {"wellformed": check_wellformed, "edges": check_edges, "cells": check_multi_cells, "placement": check_multi_placement}
 
 
 def search_multi(index, family, seed=0, limit=60, saved=None):
